@@ -76,13 +76,19 @@ def triage_one(slot, mdir, sid, pid, head):
     demo_txt = str(meta.get("demo", "")) + " " + " ".join(demos)
     dm = re.search(DIRS + r"/", demo_txt)
     ddir = dm.group(1) if dm else None
+    run = RUN
+    names = []
+    for f in demos:
+        names += re.findall(r"^func (Test\w+)\(", open(os.path.join(mdir, f)).read(), re.M)
+    if names:
+        run = "-run \"^(%s)$\"" % "|".join(names)  # exactly the tests of the demonstration file
     if ddir and demos:
         for f in demos:
             shutil.copy(os.path.join(mdir, f), os.path.join(wt, ddir, f))
-        rc1, out1 = netns("go test -vet=off -count=1 %s ./%s/ 2>&1 | tail -5" % (RUN, ddir), wt)
+        rc1, out1 = netns("go test -vet=off -count=1 %s ./%s/ 2>&1 | tail -5" % (run, ddir), wt)
         res["demo_fails_with_change"] = "FAIL" in out1 or "panic" in out1
         sh("git checkout -- .", cwd=wt)
-        rc2, out2 = netns("go test -vet=off -count=1 %s ./%s/ 2>&1 | tail -5" % (RUN, ddir), wt)
+        rc2, out2 = netns("go test -vet=off -count=1 %s ./%s/ 2>&1 | tail -5" % (run, ddir), wt)
         res["demo_passes_without_change"] = ("FAIL" not in out2) and ("ok" in out2)
         res["demo_dir"] = ddir
         sh("git clean -fdq", cwd=wt)
@@ -105,7 +111,7 @@ def triage_one(slot, mdir, sid, pid, head):
             shutil.copy(os.path.join(mdir, f), dst)
         json.dump({
             "property": pid, "id": sid, "summary": meta.get("summary"), "needs": meta.get("needs"),
-            "demo": "copy the *_test.go file into %s/ and run (in a private network namespace): go test -vet=off -count=1 %s ./%s/" % (ddir, RUN, ddir),
+            "demo": "copy the *_test.go file into %s/ and run (in a private network namespace): go test -vet=off -count=1 %s ./%s/" % (ddir, run, ddir),
             "confirmed_on_repo_head": head,
             "what_was_run": ["git apply patch.diff in a scratch worktree of /repo HEAD", "go build ./...", "go test -vet=off -count=1 ./... (whole suite, private network namespace): passes with the change", "demonstration: fails with the change, passes without", "VERIF_REPO=<that worktree> ./vcheck <ID> quick for " + ", ".join(RELATED.get(pid, [pid]))],
             "checks": det, "detected_by": res["detected_by"],
